@@ -29,6 +29,8 @@ import EaselModel.Msa.LemmasFull2
 import EaselModel.Msa.LemmasFlushIP
 import EaselModel.Msa.LemmasWf
 import EaselModel.Msa.LemmasRf3
+import EaselModel.Msa.LemmasSet
+import EaselModel.Msa.LemmasSample
 /-! # C15 — alignment transformations keep the alignment well formed and the residues intact; WUSS round trips
 
 Property theorems only; proofs are glue on the lemmas of `EaselModel/Msa/Lemmas*.lean`.
@@ -425,6 +427,19 @@ theorem markFragments_spec (m : Msa) (minspan : Int) (wf : m.WF) :
   · intro f l hf hl a b c d
     rw [← hlen] at hf hl d ⊢
     exact fragFlag_span isRes minspan r f l hf hl a b c d
+
+/-- THE THRESHOLD of `esl_msa_MarkFragments`, exactly (ℚ in place of `float`): with `minspan = (int) ceil(fragthresh * alen)`
+    the test the code makes, `rpos - lpos + 1 < minspan`, is `span < fragthresh * alen` — a sequence whose span is exactly
+    `fragthresh * alen` is NOT a fragment (unlike `esl_msa_MarkFragments_old`, whose test is `rlen <= fragthresh * alen`) -/
+theorem markFragments_threshold_exact (isRes : UInt8 → Bool) (alen : Nat) (t : Rat) (r : Bytes) :
+    fragFlag isRes alen (t * (alen : Rat)).ceil r =
+      decide ((((lastIdx1 isRes (r.take alen) : Nat) : Int) - ((firstIdx isRes (r.take alen) : Nat) + 1 : Int) + 1 : Int) < t * (alen : Rat)) := by
+  unfold fragFlag
+  rw [decide_eq_decide]
+  exact Rat.lt_ceil_iff
+
+example : fragFlag isAlpha 4 ((1/2 : Rat) * ((4 : Nat) : Rat)).ceil [0x2d, 0x41, 0x43, 0x2d] = false ∧
+    fragFlag isAlpha 4 ((51/100 : Rat) * ((4 : Nat) : Rat)).ceil [0x2d, 0x41, 0x43, 0x2d] = true := by decide +kernel
 
 /-- `esl_msa_MarkFragments_old` on one row (`maskEnds`): same length, same residues in the same order; every cell is
     an old cell or the missing-data symbol (leading / trailing non-residues only) -/
@@ -1379,6 +1394,69 @@ example : reasonableRFConsX (ratArith (1/2)) ratCArith { exRfText with rows := [
 example : rfColumn (ratArith (1/2)) isAlpha (fun _ => true) [(0x47, 1), (0x2d, 1)] = 0x78 ∧
     wsum isAlpha [(0x47, (1 : Rat)), (0x2d, 1)] = 1 := by decide +kernel
 
+
+/-! ## esl_msa_Set{Name,Desc,Accession,Author,SeqName,SeqAccession,SeqDescription} and their esl_msa_Format* twins -/
+
+/-- every call of the family — whatever the field, index, string and length, successful or refused — leaves the residues,
+    weights, every aligned annotation line, per-sequence SS/SA/PP, cutoffs, comments and all unparsed markup untouched,
+    keeps the shape, leaves the name / accession / description of every OTHER sequence where it was, and a refused call
+    (index `>= nseq`, NULL sequence name) changes nothing at all -/
+theorem setStr_frame (m : Msa) (hs : m.Shape) (f : StrField) (idx : Int) (s : Option Bytes) (n : Int) :
+    SameButStrings (setStr m f idx s n).msa m ∧ (setStr m f idx s n).msa.Shape ∧
+    ((setStr m f idx s n).st ≠ .ok → (setStr m f idx s n).msa = m) ∧
+    ∀ j : Nat, (j : Int) ≠ idx →
+      (setStr m f idx s n).msa.sqname[j]? = m.sqname[j]? ∧ (setStr m f idx s n).msa.sqacc[j]? = m.sqacc[j]? ∧
+      (setStr m f idx s n).msa.sqdesc[j]? = m.sqdesc[j]? :=
+  ⟨setStr_same m f idx s n, setStr_shape m hs f idx s n, setStr_fail_unchanged m f idx s n, setStr_others m f idx s n⟩
+
+/-- a successful call stores exactly the first `n` bytes of the string (`n < 0`: all of it; NULL erases an optional field) -/
+theorem setStr_stores (m : Msa) (hs : m.Shape) (f : StrField) (idx : Int) (s : Option Bytes) (n : Int)
+    (h : (setStr m f idx s n).st = .ok) : strFieldGet (setStr m f idx s n).msa f idx.toNat = dupMem s n :=
+  setStr_sets m hs f idx s n h
+
+/-- `esl_msa_Format…` is `esl_msa_Set…` of the formatted string wherever it succeeds (its refusals carry `eslEINVAL`
+    instead of `eslEINCONCEIVABLE`), with the same frame -/
+theorem formatStr_is_setStr (m : Msa) (hs : m.Shape) (f : StrField) (idx : Int) (out : Option Bytes) :
+    ((formatStr m f idx out).st = .ok → formatStr m f idx out = setStr m f idx out (-1)) ∧
+    SameButStrings (formatStr m f idx out).msa m ∧ (formatStr m f idx out).msa.Shape ∧
+    ((formatStr m f idx out).st ≠ .ok → (formatStr m f idx out).msa = m) ∧
+    ∀ j : Nat, (j : Int) ≠ idx →
+      (formatStr m f idx out).msa.sqname[j]? = m.sqname[j]? ∧ (formatStr m f idx out).msa.sqacc[j]? = m.sqacc[j]? ∧
+      (formatStr m f idx out).msa.sqdesc[j]? = m.sqdesc[j]? :=
+  ⟨formatStr_eq_setStr m f idx out, formatStr_same m f idx out, formatStr_shape m hs f idx out,
+   formatStr_fail_unchanged m f idx out, formatStr_others m f idx out⟩
+
+def exSet : Msa := { Msa.create 2 4 with sqname := [[0x61], [0x62]] }
+example : exSet.Shape := by constructor <;> decide
+example : (setStr exSet .sqname 1 (some [0x78, 0x79, 0x7a]) 2).msa.sqname = [[0x61], [0x78, 0x79]] ∧
+    (setStr exSet .sqname 2 (some [0x78]) (-1)).st = .einconceivable ∧ (formatStr exSet .sqname 2 (some [0x78])).st = .einval ∧
+    (setStr exSet .sqname 0 none (-1)).st = .einconceivable ∧
+    (setStr exSet .sqdesc 0 (some [0x64]) (-1)).msa.sqdesc = [some [0x64], none] ∧
+    (formatStr exSet .acc 0 (some [0x50, 0x46, 0x7c, 0x2d, 0x37])).msa.acc = some [0x50, 0x46, 0x7c, 0x2d, 0x37] := by decide
+
+/-! ## esl_msa_Sample -/
+
+/-- FOR EVERY SOURCE OF RANDOM WORDS AND EVERY STATE OF IT (in particular every seed of the Mersenne Twister the driver
+    runs, bit-identical to `esl_random.c`): an alignment returned by `esl_msa_Sample(rng, abc, max_nseq, max_alen, &msa)`
+    is a well-formed digital alignment over `abc` with `1..max_nseq` sequences and `1..max_alen` columns; every cell is a
+    residue or the gap code (never missing data, the nonresidue code or the sentinel); every name is 1..30 graphic
+    characters not starting with punctuation; the RF line consists of `x` and `.`; all weights are 1.0 and HASWGTS is
+    down. (`nofuel`: a rejection loop of `esl_rnd_Roll` / of the name sampler outlasting the fuel — probability 0 in the
+    limit — is the only other outcome: the model has no fault.) -/
+theorem sample_wellformed {σ : Type} (next : σ → UInt32 × σ) (fu : Nat) (a : Abc) (hKp : a.Kp ≤ 255) (hK : a.K + 3 ≤ a.Kp)
+    (maxNseq maxAlen : Nat) (s : σ) (m : Msa) (s' : σ) (h : sampleMsa next fu a maxNseq maxAlen s = .ok (m, s')) :
+    m.WF ∧ m.isDigital = true ∧ m.abc = some a ∧ (1 ≤ m.nseq ∧ m.nseq ≤ maxNseq) ∧ (1 ≤ m.alen ∧ m.alen ≤ maxAlen) ∧
+    (∀ r ∈ m.rows, ∀ x ∈ r, x.toNat < a.Kp - 2) ∧ (∀ nm ∈ m.sqname, NameOk nm) ∧
+    (∃ rf, m.rf = some rf ∧ ∀ c ∈ rf, c = 0x78 ∨ c = 0x2e) ∧
+    m.wgt = List.replicate m.nseq 0x3ff0000000000000 ∧ m.hasWgts = false :=
+  sampleMsa_spec next fu a hKp hK maxNseq maxAlen s m s' h
+
+/-- the side conditions hold for the generated alphabets; a constant source (every word 2^31) gives a 1 x 1 alignment -/
+example : (Gen.rnaAbc.Kp ≤ 255 ∧ Gen.rnaAbc.K + 3 ≤ Gen.rnaAbc.Kp) ∧ (Gen.dnaAbc.Kp ≤ 255 ∧ Gen.dnaAbc.K + 3 ≤ Gen.dnaAbc.Kp) ∧
+    (Gen.aminoAbc.Kp ≤ 255 ∧ Gen.aminoAbc.K + 3 ≤ Gen.aminoAbc.Kp) := by decide
+example : (match sampleMsa (fun (s : Nat) => ((0x80000000 : UInt32), s + 1)) 5 Gen.rnaAbc 1 1 0 with
+    | .ok (m, s) => (m.rows, m.sqname, m.rf, s)
+    | _ => ([], [], none, 0)) = ([[2]], [List.replicate 16 0x50], some [0x78], 23) := by decide +kernel
 
 /-! ## esl_sq.c: conversions of a sequence object taken from an alignment -/
 
